@@ -1,7 +1,11 @@
 """
-Name-independent comparison of expressions inside one function: locals that are assigned exactly once are replaced by their
-defining expressions (for comparison only -- purity does not matter because nothing is moved), products / sums are flattened
-and sorted.  Rules use this to state "the value subtracted is the value put into the row" without naming any variable.
+Name-independent comparison of expressions inside one function: locals are replaced by their defining expressions (for
+comparison only -- purity does not matter because nothing is moved), products / sums are flattened and sorted.  Rules use this
+to state "the value subtracted is the value put into the row" without naming any variable.
+
+Which definition: a local that is assigned exactly once in the function resolves to that assignment; a local that is assigned
+several times (e.g. the same name reused in two loops) resolves to the latest assignment that precedes the use in the same
+block or in an enclosing block (a definition in a sibling branch or in a different loop is never taken).
 """
 import ast
 import copy
@@ -9,39 +13,122 @@ from typing import Dict, List, Optional, Tuple
 
 from .core import norm
 
+Path = Tuple[Tuple[int, int], ...]
+
+
+def _is_container_display(v: ast.AST) -> bool:
+    return isinstance(v, (ast.List, ast.Dict, ast.Set, ast.ListComp, ast.DictComp, ast.SetComp)) or \
+        (isinstance(v, ast.Call) and norm(v.func) in ("list", "dict", "set", "deque", "collections.deque"))
+
 
 class Resolver:
     def __init__(self, fn: ast.AST) -> None:
         counts: Dict[str, int] = {}
         self.defs: Dict[str, ast.AST] = {}
+        self.paths: Dict[int, Path] = {}          # node id -> path of the enclosing statement
+        self.all_defs: Dict[str, List[Tuple[Path, ast.AST]]] = {}
         for n in ast.walk(fn):
             if isinstance(n, ast.Name) and isinstance(n.ctx, (ast.Store, ast.Del)):
                 counts[n.id] = counts.get(n.id, 0) + 1
             elif isinstance(n, ast.arg):
                 counts[n.arg] = counts.get(n.arg, 0) + 2
+        self.counts = counts
+        # names that are accumulated into or bound by loops / with / except are never resolved to one of their assignments
+        self.unstable = set()
         for n in ast.walk(fn):
-            if isinstance(n, ast.Assign) and len(n.targets) == 1 and isinstance(n.targets[0], ast.Name) and counts.get(n.targets[0].id) == 1:
-                # a freshly built container is an object with identity (it is filled later), not a value to substitute
-                if isinstance(n.value, (ast.List, ast.Dict, ast.Set, ast.ListComp, ast.DictComp, ast.SetComp)) or \
-                        (isinstance(n.value, ast.Call) and norm(n.value.func) in ("list", "dict", "set", "deque", "collections.deque")):
-                    continue
-                self.defs[n.targets[0].id] = n.value
-            elif isinstance(n, ast.Assign) and len(n.targets) == 1 and isinstance(n.targets[0], (ast.Tuple, ast.List)) \
-                    and isinstance(n.value, (ast.Tuple, ast.List)) and len(n.value.elts) == len(n.targets[0].elts):
-                for t, v in zip(n.targets[0].elts, n.value.elts):
-                    if isinstance(t, ast.Name) and counts.get(t.id) == 1:
-                        self.defs[t.id] = v
+            if isinstance(n, ast.AugAssign):
+                self.unstable.update(x.id for x in ast.walk(n.target) if isinstance(x, ast.Name))
+            elif isinstance(n, (ast.For, ast.comprehension)):
+                self.unstable.update(x.id for x in ast.walk(n.target) if isinstance(x, ast.Name))
+            elif isinstance(n, ast.ExceptHandler) and n.name:
+                self.unstable.add(n.name)
+            elif isinstance(n, ast.withitem) and n.optional_vars is not None:
+                self.unstable.update(x.id for x in ast.walk(n.optional_vars) if isinstance(x, ast.Name))
 
-    def res(self, e: ast.AST, keep: Tuple[str, ...] = (), depth: int = 6) -> ast.AST:
-        """copy of e with single-assignment locals (except those in `keep`) replaced by their definitions"""
-        defs, outer = self.defs, self
+        def index(stmts: List[ast.stmt], prefix: Path) -> None:
+            for i, st in enumerate(stmts):
+                path = prefix + ((id(stmts), i),)
+                nested = []
+                for fld in ("body", "orelse", "finalbody"):
+                    b = getattr(st, fld, None)
+                    if isinstance(b, list) and b and isinstance(b[0], ast.stmt):
+                        nested.append(b)
+                if isinstance(st, ast.Try):
+                    nested.extend(h.body for h in st.handlers)
+                inner_ids = set()
+                for b in nested:
+                    index(b, path)
+                    for s2 in b:
+                        inner_ids.update(id(x) for x in ast.walk(s2))
+                for x in ast.walk(st):
+                    if id(x) not in inner_ids:
+                        self.paths.setdefault(id(x), path)
+                self._record_defs(st, path)
+        body = getattr(fn, "body", None)
+        if isinstance(body, list):
+            index(body, ())
 
-        class T(ast.NodeTransformer):
-            def visit_Name(self, node: ast.Name):
-                if isinstance(node.ctx, ast.Load) and node.id in defs and node.id not in keep and depth > 0:
-                    return outer.res(defs[node.id], keep, depth - 1)
-                return node
-        return T().visit(copy.deepcopy(e))
+    def _record_defs(self, n: ast.stmt, path: Path) -> None:
+        pairs: List[Tuple[str, ast.AST]] = []
+        if isinstance(n, ast.Assign) and len(n.targets) == 1 and isinstance(n.targets[0], ast.Name):
+            # a freshly built container is an object with identity (it is filled later), not a value to substitute
+            if not _is_container_display(n.value):
+                pairs.append((n.targets[0].id, n.value))
+        elif isinstance(n, ast.Assign) and len(n.targets) == 1 and isinstance(n.targets[0], (ast.Tuple, ast.List)):
+            t = n.targets[0]
+            if isinstance(n.value, (ast.Tuple, ast.List)) and len(n.value.elts) == len(t.elts):
+                pairs += [(x.id, v) for x, v in zip(t.elts, n.value.elts) if isinstance(x, ast.Name)]
+            elif isinstance(n.value, (ast.Subscript, ast.Attribute, ast.Name)):
+                # a, b = X  (X a stored pair): a is X[0], b is X[1]
+                for i, x in enumerate(t.elts):
+                    if isinstance(x, ast.Name):
+                        sub = ast.copy_location(ast.Subscript(value=n.value, slice=ast.Constant(value=i), ctx=ast.Load()), n.value)
+                        self.paths[id(sub)] = path
+                        pairs.append((x.id, sub))
+        for name, v in pairs:
+            self.all_defs.setdefault(name, []).append((path, v))
+            if self.counts.get(name) == 1:
+                self.defs[name] = v
+
+    def _reaching(self, name: str, at: Optional[Path]) -> Optional[ast.AST]:
+        if name in self.defs:
+            return self.defs[name]
+        if at is None or name not in self.all_defs or name in self.unstable:
+            return None
+        best: Optional[Tuple[Path, ast.AST]] = None
+        for path, v in self.all_defs[name]:
+            k = len(path)
+            if k > len(at) or path[:k - 1] != at[:k - 1]:
+                continue
+            if path[k - 1][0] != at[k - 1][0] or path[k - 1][1] >= at[k - 1][1]:
+                continue
+            if best is None or path > best[0]:
+                best = (path, v)
+        return best[1] if best is not None else None
+
+    def res(self, e: ast.AST, keep: Tuple[str, ...] = (), depth: int = 6, at: Optional[Path] = None) -> ast.AST:
+        """copy of e with locals (except those in `keep`) replaced by their (reaching) definitions"""
+        return self._subst(e, tuple(keep), depth, at if at is not None else self.paths.get(id(e)))
+
+    def _subst(self, e: ast.AST, keep: Tuple[str, ...], depth: int, at: Optional[Path]) -> ast.AST:
+        if isinstance(e, ast.Name) and isinstance(e.ctx, ast.Load) and e.id not in keep and depth > 0:
+            here = self.paths.get(id(e), at)
+            d = self._reaching(e.id, here)
+            if d is not None:
+                return self._subst(d, keep, depth - 1, self.paths.get(id(d), here))
+            return copy.copy(e)
+        if isinstance(e, (ast.Lambda, ast.ListComp, ast.SetComp, ast.DictComp, ast.GeneratorExp)):
+            # names bound inside are not locals of the function: protect them
+            bound = {a.arg for a in e.args.args} if isinstance(e, ast.Lambda) else \
+                {x.id for g in e.generators for x in ast.walk(g.target) if isinstance(x, ast.Name)}
+            keep = keep + tuple(bound)
+        new = copy.copy(e)
+        for field, value in ast.iter_fields(e):
+            if isinstance(value, list):
+                setattr(new, field, [self._subst(v, keep, depth, at) if isinstance(v, ast.AST) else v for v in value])
+            elif isinstance(value, ast.AST):
+                setattr(new, field, self._subst(value, keep, depth, at))
+        return new
 
     def text(self, e: ast.AST, keep: Tuple[str, ...] = ()) -> str:
         return norm(self.res(e, keep))
